@@ -160,6 +160,12 @@ class Final:
         if v is None:
             return '?', None
         if not isinstance(v, Ptr):
+            try:
+                c = int(v)
+                if 0 <= c <= self.frag.mask:
+                    return None, c
+            except Exception:
+                pass
             return ('!', v), None
         return (None if v.base == 'null' else v.base), v.off
 
